@@ -229,6 +229,15 @@ def _run_plain(sub, rep, tier, seed, shard, nshards):
         _absorb(rep, case, info)
 
 
+def _is_flaky(e):
+    """Hypothesis reports a failure that does not replay identically (e.g. code reading uninitialised memory) as Flaky*."""
+    from hypothesis import errors
+    kinds = tuple(getattr(errors, n) for n in ("Flaky", "FlakyFailure", "FlakyReplay") if hasattr(errors, n))
+    if isinstance(e, kinds):
+        return True
+    return any(_is_flaky(x) for x in getattr(e, "exceptions", ()))
+
+
 def _run_machine(sub, rep, tier, seed, shard, nshards):
     """Hypothesis stateful mode: rules are public API calls, the whole history shrinks as one value."""
     from hypothesis import settings, seed as hseed, HealthCheck, Phase
@@ -262,6 +271,11 @@ def _run_machine(sub, rep, tier, seed, shard, nshards):
         rep["failure"]["shrink"] = "budget exhausted"
     except Violation:
         rep["failure"] = state["last_fail"]
+    except BaseException as e:
+        if not _is_flaky(e) or state["last_fail"] is None:
+            raise
+        rep["failure"] = dict(state["last_fail"], flaky="the violation was observed but does not reproduce on every "
+                                                          "replay: the code under test is not deterministic")
 
 
 def _run_hypothesis(sub, rep, tier, seed, shard, nshards):
@@ -300,6 +314,11 @@ def _run_hypothesis(sub, rep, tier, seed, shard, nshards):
         rep["failure"]["shrink"] = "budget exhausted"
     except Violation:
         rep["failure"] = state["last_fail"]
+    except BaseException as e:
+        if not _is_flaky(e) or state["last_fail"] is None:
+            raise
+        rep["failure"] = dict(state["last_fail"], flaky="the violation was observed but does not reproduce on every "
+                                                          "replay: the code under test is not deterministic")
     # any other exception propagates to run_sub_shard -> harness error
 
 
